@@ -8,4 +8,11 @@ Extraction "extracted/builtins_model.ml"
   impl_integer_abs impl_integer_sqrt impl_integer_add impl_integer_subtract impl_integer_multiply
   impl_integer_gcd impl_integer_divide impl_integer_modulo impl_integer_compare
   impl_integer_and impl_integer_or impl_integer_xor impl_integer_not impl_integer_shift
-  impl_integer_popcount.
+  impl_integer_popcount
+  impl_binary_new impl_binary_length impl_binary_concat impl_binary_repeat
+  impl_binary_and impl_binary_or impl_binary_xor impl_binary_not impl_binary_shift
+  impl_binary_popcount impl_binary_get impl_binary_set impl_binary_slice impl_binary_index
+  impl_binary_hash32 impl_binary_hash64 impl_binary_append
+  impl_vector_add impl_vector_subtract impl_vector_multiply impl_vector_less_than impl_vector_equal
+  impl_vector_greater_than impl_vector_dot impl_vector_take impl_vector_get impl_vector_push
+  impl_vector_sum.
